@@ -8,10 +8,10 @@ def run(ctx):
     exe = ctx.cc("h_map.c", "asan")
     # (1) design check of the dictionary + notifier part of the specification, per implementation profile
     for impl in maps.IMPLS:
-        cfg = ctx.cfg("MapMC_notif_%s.cfg" % impl, maps.consts(impl, [1, 2, 3], 2, 0, [7] if q else [5, 7], True) +
+        cfg = ctx.cfg("MapMC_notif_%s.cfg" % impl, maps.consts(impl, [1, 2, 3] if not q else [1, 2], 2, 0, [7] if q else [5, 7], True, (0, 1)) +
                       "SPECIFICATION Spec\nINVARIANT TypeOK\nINVARIANT NotifScope\nINVARIANT UdInjective\nINVARIANT FreeOnlyGlobal\nCHECK_DEADLOCK FALSE\n")
         r = ctx.model_check("Map.tla", cfg)
-        ctx.check_vacuity(r, ["Put", "Get", "Rm", "Count", "Destroy", "ANotifyAdd", "ANotifyDel"])
+        ctx.check_vacuity(r, ["Put", "Get", "Rm", "Count", "Destroy", "ANotifyAdd", "ANotifyDel", "ANotifyDelAny"])
     # (2) spec -> code -> spec
     total = 0
     keysets = [[1, 2, 3], [2, 3, 4, 5], [1, 6, 7], [2, 4, 8]]
@@ -22,7 +22,10 @@ def run(ctx):
         nx = len(hs)
         for i, ks in enumerate(keysets):
             hs += maps.gen(ctx, impl, ks, 2, 0, [7, 1] if i % 2 == 0 else [4, 2], True, "dict", 24 if q else 40,
-                           "simulate", num=(400 if q else 8000), tag="-s%d" % i)
+                           "simulate", num=(400 if q else 8000), tag="-s%d" % i, tags=(0, 1) if i < 2 else (0,))
+        # notifier-heavy walks: few keys, one event mask, two subscribers sharing the handler
+        hs += maps.gen(ctx, impl, [1, 2], 2, 0, [7], False, "dict", 16 if q else 24, "simulate", num=(300 if q else 4000),
+                       tag="-n", tags=(0, 1))
         # every third history ends with destroy (values leaving the map at destroy)
         for i, h in enumerate(hs):
             if i % 3 == 0:
